@@ -18,6 +18,13 @@ CHECKS = {
             "symbol / missing transition rejects, only Reject is ever raised. Model tied to the code by exact comparison of yields, "
             "outcome kind, accepts_input, `in`, read_input on generated machines x words.",
             "Open known finding: a state named None (sentinel collision).", "7/C01"),
+    "C06": ("Coq theorems about the lazy cross-product search and the verified comparator + differential correspondence",
+            "Proved for all valid DFA pairs over a common alphabet (unbounded sizes): ==, !=, <=, <, >=, >, issubset, issuperset, isdisjoint "
+            "return a boolean (never an error) that is exactly the corresponding statement about the two languages; isempty likewise; "
+            "different alphabets are refused. The relevance-flag skipping of the lazy product is justified inside the proof. "
+            "== is a specification model (Hopcroft-Karp bookkeeping not modelled; its boolean is compared). isfinite: executable "
+            "model (acyclicity of the useful subgraph) validated by correspondence only - no theorem yet.",
+            "", "7/C06"),
 }
 
 PENDING = {}
